@@ -455,7 +455,36 @@ func main() {
 		}
 	}
 	var unsupported []string
+	// dependency closure: package-level functions called from a whitelisted function are
+	// translated too, before their callers
+	var order []string
+	seen := map[string]bool{}
+	var visit func(n string)
+	visit = func(n string) {
+		if seen[n] {
+			return
+		}
+		seen[n] = true
+		if fd := decls[n]; fd != nil && fd.Body != nil {
+			ast.Inspect(fd.Body, func(node ast.Node) bool {
+				if call, ok := node.(*ast.CallExpr); ok {
+					if id, ok := call.Fun.(*ast.Ident); ok {
+						if _, isFunc := decls[id.Name]; isFunc && id.Name != "newCodecError" {
+							if ftv, ok := info.Types[call.Fun]; !ok || !ftv.IsType() {
+								visit(id.Name)
+							}
+						}
+					}
+				}
+				return true
+			})
+		}
+		order = append(order, n)
+	}
 	for _, n := range leafWhitelist {
+		visit(n)
+	}
+	for _, n := range order {
 		fd := decls[n]
 		if fd == nil {
 			fmt.Fprintf(&b, "(* %s: NOT FOUND *)\n", n)
